@@ -13,7 +13,10 @@ M1  value(T_i, conditions) = bare polynomial(T_i) + sum over attached models of 
     the documented formulas (S = -ln P; piecewise-linear lateral interaction / RT; constants / R).
 M2  count of GasPressureAdj in misc_models is 1 for gas phases (g, gas, G, Gas) and 0 otherwise,
     after construction, copy, deepcopy and every to_dict/from_dict or JSON cycle; 0 with
-    add_gas_P_adj=False; the caller's misc_models list is left unmodified (clause caller_list);
+    a falsy add_gas_P_adj (False, numpy.bool_(False), 0) through construction and every reload route;
+    exactly 1 when the adjustment is handed over in its raw JSON form
+    {'class': "<class 'pmutt.empirical.GasPressureAdj'>"} (alone, first, last, between live models);
+    the caller's misc_models list is left unmodified (clause caller_list);
     a list shared between a gas and a surface species gives the surface species no
     adjustment (clause shared_list).
 M3  S(P) = S(1 bar) - ln P, G(P) = G(1 bar) + ln P, default pressure = 1 bar for species that
@@ -41,6 +44,11 @@ NT_RULE = ('species class x phase spelling x 0-4 user supplied models in random 
            'canonical JSON of the case')
 REQUIRED_ORACLES = ['M1', 'M2', 'M3', 'CNT']
 GAS_SPELLINGS = ('g', 'gas', 'G', 'Gas')
+# add_gas_P_adj values: the spec stores the label (None = argument not passed)
+FLAG_LABELS = ['True', 'False', 'np.bool_(True)', 'np.bool_(False)', '1', '0']
+FLAG_TRUTHY = {'default': True, 'True': True, 'False': False, 'np.bool_(True)': True, 'np.bool_(False)': False,
+               '1': True, '0': False}
+RAW_GAS_ENTRY = {'class': "<class 'pmutt.empirical.GasPressureAdj'>"}
 PHASES = ['g', 'gas', 'G', 'Gas', 's', 'S', None]
 REQUIRED_CLASSES = (['class:Nasa', 'class:Nasa9', 'class:Shomate'] +
                     ['phase:%s' % p for p in PHASES] +
@@ -49,7 +57,11 @@ REQUIRED_CLASSES = (['class:Nasa', 'class:Nasa9', 'class:Shomate'] +
                      'array:list', 'array:ndarray', 'nasa9:array_spans_segments', 'nasa9:last_segment',
                      'model:gas_preattached', 'model:gas_auto', 'model:cov', 'model:cov_multi', 'model:const',
                      'misc:None', 'misc:empty_list', 'misc:list',
-                     'add_gas_P_adj:default', 'add_gas_P_adj:True', 'add_gas_P_adj:False',
+                     'add_gas_P_adj:default'] + ['add_gas_P_adj:%s' % f for f in FLAG_LABELS] +
+                    ['flag_route:%s:%s' % (f, op) for f in FLAG_LABELS for op in ('deepcopy', 'from_dict', 'json')] +
+                    ['T:array_repeats', 'T:array_all_equal', 'T:array_descending', 'T:array_unsorted',
+                     'model:gas_raw_entry', 'raw_entry:alone', 'raw_entry:first', 'raw_entry:last',
+                     'raw_entry:middle',
                      'hist:copy', 'hist:deepcopy', 'hist:from_dict', 'hist:json', 'hist:cycles3',
                      'shared_list:gas_first', 'shared_list:other_first', 'P:default', 'P:given',
                      'x:default', 'x:on_break', 'x:beyond_last', 'cond:distractor_block', 'cov:self_interaction'])
@@ -58,7 +70,9 @@ REQUIRED_PROBES = ['EmpiricalBase.__init__', '_get_mix_quantity', 'GasPressureAd
 ASSUMPTIONS = [
     'temperatures lie inside the validity range and never exactly on an interior break (segment selection is C02)',
     'gas constants and unit factors are taken from pmutt.constants (unit tables are C12)',
-    'a user supplied GasPressureAdj is only generated for gas species with add_gas_P_adj not False; '
+    'a user supplied GasPressureAdj (live object or raw JSON entry, never both) is only generated for gas species '
+    'with a truthy add_gas_P_adj; add_gas_P_adj is decided by truthiness (True, numpy.bool_(True), 1 enable; False, '
+    'numpy.bool_(False), 0 disable), as EmpiricalBase.__init__ documents a bool; '
     'ConstantMode is not combined with reload cycles (it is not in the JSON registry: C11) and G is not compared '
     'when a ConstantMode is attached (its own G attribute is independent of its H and S)',
     'return shapes are normalised (size-1 array vs scalar is shape, not value)',
@@ -134,11 +148,34 @@ def is_gas(phase):
     return phase in GAS_SPELLINGS
 
 
+def flag_label(v):
+    """spec value -> label (older replay files store JSON booleans)."""
+    if v is None:
+        return 'default'
+    if v is True:
+        return 'True'
+    if v is False:
+        return 'False'
+    if v in FLAG_TRUTHY:
+        return v
+    raise core.HarnessError('unknown add_gas_P_adj label %r' % (v,))
+
+
+def flag_enabled(spec):
+    return FLAG_TRUTHY[flag_label(spec.get('add_gas_P_adj'))]
+
+
+def flag_value(label):
+    import numpy as np
+    return {'True': True, 'False': False, 'np.bool_(True)': np.bool_(True), 'np.bool_(False)': np.bool_(False),
+            '1': 1, '0': 0}[label]
+
+
 def expected_models(spec, phase=None, first=True):
     """The history model: the list of corrections the species must carry."""
-    models = [dict(m) for m in (spec['models'] or [])]
+    models = [dict(m) if m['kind'] != 'gas_raw' else {'kind': 'gas'} for m in (spec['models'] or [])]
     ph = spec['sp']['phase'] if first else phase
-    if is_gas(ph) and spec.get('add_gas_P_adj') is not False \
+    if is_gas(ph) and flag_enabled(spec) \
             and not any(m['kind'] == 'gas' for m in models):
         models.append({'kind': 'gas'})
     if not is_gas(ph):
@@ -218,10 +255,32 @@ def _gen_arrays(rng, sp, n_models, lengths=None):
         if sp['type'] == 'Nasa9' and n >= 2:
             Ts[-1] = _gen_T(rng, sp, 'last')
             Ts[0] = _gen_T(rng, sp, 'first')
-        if rng.random() < 0.5:
+        r = rng.random()
+        if r < 0.3:
             Ts = sorted(Ts)
+        elif r < 0.45:
+            Ts = sorted(Ts, reverse=True)
+        elif r < 0.65 and n >= 2:
+            # repeated temperatures: some positions copy an earlier / later element
+            for _ in range(rng.randint(1, max(1, n // 2))):
+                i, j = rng.randrange(n), rng.randrange(n)
+                Ts[i] = Ts[j]
+            if len(set(Ts)) == n:
+                Ts[-1] = Ts[0]
+        elif r < 0.72 and n >= 2:
+            Ts = [Ts[rng.randrange(n)]] * n
         out.append({'kind': rng.choice(['list', 'ndarray']), 'T': Ts})
     return out
+
+
+def _special_arrays(rng, sp):
+    """[a, b, a], all-equal, strictly descending, repeat next to itself, unsorted with a late repeat."""
+    ts = sorted(set(_gen_T(rng, sp, w) for w in ('first', None, None, None, 'last', 'last')))
+    while len(ts) < 3:
+        ts = sorted(set(ts + [_gen_T(rng, sp)]))
+    a, b, c = ts[0], ts[len(ts) // 2], ts[-1]
+    arrs = [[a, c, a], [b, b, b], list(reversed(ts)), [c, c, a], [b, a, c, a, b, c, c], [c] * 2]
+    return [{'kind': ('list', 'ndarray')[k % 2], 'T': t} for k, t in enumerate(arrs)]
 
 
 def _gen_conditions(rng, spec):
@@ -279,7 +338,27 @@ def directed(tier):
     covSelf = {'kind': 'cov', 'name_i': 'CO(S)', 'name_j': 'CO(S)', 'intervals': [0.0, 0.5], 'slopes': [4.0, 12.0]}
     const = {'kind': 'const', 'Cp': 2.5e-4, 'H': 0.25, 'S': -3.0e-4, 'G': 0.1}
     gas = {'kind': 'gas'}
-    for cls in ('Nasa', 'Nasa9', 'Shomate'):
+    raw = {'kind': 'gas_raw'}
+    for n_cls, cls in enumerate(('Nasa', 'Nasa9', 'Shomate')):
+        # repeated / all-equal / descending temperatures with 1, 2 and 4 attached models
+        for ph, mods in (('S', [covB]), ('g', [covB, const]), ('Gas', [covC, gas, covB, covSelf]), ('s', [])):
+            c = _case(rng, cls, ph, mods, lengths=[2], units='J/mol/K')
+            c['arrays'] = _special_arrays(rng, c['sp'])
+            D.append(c)
+        # the adjustment handed over in its raw JSON form: alone, first, last, between live models
+        for k, mods in enumerate(([raw], [raw, covB], [covB, raw], [covB, raw, covC], [const, covSelf, raw],
+                                  [raw, covC, covB])):
+            D.append(_case(rng, cls, GAS_SPELLINGS[(k + n_cls) % 4], mods, lengths=[2, 3],
+                           add=[None, 'True', 'np.bool_(True)', '1', None, None][k],
+                           history=[[], ['from_dict'], ['json', 'deepcopy'], ['copy'], [], ['json', 'from_dict']][k]))
+        # every add_gas_P_adj value through construction and every reload route
+        for k, f in enumerate(FLAG_LABELS):
+            D.append(_case(rng, cls, GAS_SPELLINGS[(k + n_cls) % 4], [], add=f, misc_none=True,
+                           history=['from_dict', 'json', 'deepcopy', 'from_dict'], lengths=[2]))
+            D.append(_case(rng, cls, GAS_SPELLINGS[(k + n_cls + 1) % 4], [covB], add=f,
+                           history=['deepcopy', 'json', 'from_dict', 'json'], lengths=[2]))
+            D.append(_case(rng, cls, ['s', 'S', None][(k + n_cls) % 3], [covC], add=f,
+                           history=['json', 'from_dict'], lengths=[2]))
         # pinned witnesses ------------------------------------------------------------
         # (a) two models + the automatic adjustment, array lengths 1, 2, 3 (= n_models), 4, 50
         D.append(_case(rng, cls, 'g', [covB, covC], lengths=[1, 2, 3, 4, 50], units='J/mol/K'))
@@ -289,9 +368,9 @@ def directed(tier):
         D.append(_case(rng, cls, None, [], misc_none=True, lengths=[1, 3]))
         D.append(_case(rng, cls, 'gas', [const, covSelf, gas, covB], lengths=[2, 4, 7]))
         # (b) add_gas_P_adj=False / True
-        D.append(_case(rng, cls, 'G', [], add=False, misc_none=True, history=['deepcopy'], lengths=[3]))
-        D.append(_case(rng, cls, 'gas', [covB], add=False, lengths=[2]))
-        D.append(_case(rng, cls, 'Gas', [covC], add=True, history=['copy'], lengths=[2]))
+        D.append(_case(rng, cls, 'G', [], add='False', misc_none=True, history=['deepcopy'], lengths=[3]))
+        D.append(_case(rng, cls, 'gas', [covB], add='False', lengths=[2]))
+        D.append(_case(rng, cls, 'Gas', [covC], add='True', history=['copy'], lengths=[2]))
         # (c) caller's list / shared list, both orders, empty list
         D.append(_case(rng, cls, 'g', [covB], share={'phase': 'S', 'order': 'gas_first'}, lengths=[2]))
         D.append(_case(rng, cls, 'Gas', [covB, covC], share={'phase': 's', 'order': 'other_first'}, lengths=[3]))
@@ -325,16 +404,20 @@ def generate(rng, tier):
     cls = rng.choice(['Nasa', 'Nasa9', 'Shomate'])
     phase = rng.choice(['g', 'gas', 'G', 'Gas', 'g', 'gas', 'G', 'Gas', 's', 'S', None])
     name = rng.choice(NAMES)
-    add = rng.choice([None, None, None, None, None, True, False, False])
+    add = rng.choice([None, None, None, None, None, None] + FLAG_LABELS + ['False', 'np.bool_(False)', '0'])
+    enabled = FLAG_TRUTHY[flag_label(add)]
     n_user = rng.choice([0, 0, 1, 1, 2, 2, 2, 3, 3, 4])
     kinds = []
     pool = ['cov', 'cov', 'cov', 'const']
-    if is_gas(phase) and add is not False:
+    if is_gas(phase) and enabled:
         pool.append('gas')
         pool.append('gas')
+        pool.append('gas_raw')
     while len(kinds) < n_user:
         k = rng.choice(pool)
-        if k in ('const', 'gas') and k in kinds:
+        if k in ('const', 'gas', 'gas_raw') and k in kinds:
+            continue
+        if k in ('gas', 'gas_raw') and ('gas' in kinds or 'gas_raw' in kinds):
             continue
         if k == 'cov' and kinds.count('cov') >= 3:
             continue
@@ -350,7 +433,7 @@ def generate(rng, tier):
         elif k == 'const':
             models.append(_gen_const(rng))
         else:
-            models.append({'kind': 'gas'})
+            models.append({'kind': k})
     history = []
     r = rng.random()
     if r < 0.45:
@@ -370,9 +453,9 @@ def generate(rng, tier):
         order = rng.choice(['first_first', 'second_first'])
         share = {'phase': other,
                  'order': 'gas_first' if (order == 'first_first') == first_is_gas else 'other_first'}
-        if any(m['kind'] == 'gas' for m in models):
+        if any(m['kind'] in ('gas', 'gas_raw') for m in models):
             share = None                               # a user supplied adjustment in a shared list is ambiguous
-        elif add is False:
+        elif not enabled:
             share = None
     spec = {'sp': _gen_species(rng, cls, name, phase), 'models': None if misc_none else models,
             'add_gas_P_adj': add, 'history': history, 'share': share}
@@ -445,6 +528,8 @@ def _build_model(m):
     from pmutt.statmech import ConstantMode
     if m['kind'] == 'gas':
         return GasPressureAdj()
+    if m['kind'] == 'gas_raw':
+        return dict(RAW_GAS_ENTRY)
     if m['kind'] == 'cov':
         return PiecewiseCovEffect(name_i=m['name_i'], name_j=m['name_j'], intervals=list(m['intervals']),
                                   slopes=list(m['slopes']))
@@ -504,6 +589,8 @@ class _Eval:
         for q in Q:
             for kind, T_in, T_list in inputs:
                 mech = dict(self.base, q=q, T_kind=kind, clause='M1', **hist)
+                if len(set(T_list)) < len(T_list):
+                    mech['T_repeats'] = True
                 ctx.cls('T:' + kind)
                 _ST['counts'] = {}
                 r = ctx.call('M1', mech, getattr(obj, 'get_' + q), T=T_in, **kw)
@@ -581,9 +668,17 @@ def run_case(spec, ctx):
     # ---- input classes
     ctx.cls('class:' + cls, 'phase:%s' % phase, 'n_models:' + bucket(n_models))
     ctx.cls('misc:None' if user is None else ('misc:list' if user else 'misc:empty_list'))
-    ctx.cls('add_gas_P_adj:%s' % {None: 'default'}.get(spec['add_gas_P_adj'], spec['add_gas_P_adj']))
+    flag = flag_label(spec.get('add_gas_P_adj'))
+    ctx.cls('add_gas_P_adj:' + flag)
+    base['flag'] = flag
     kinds = [m['kind'] for m in (user or [])]
-    if 'gas' in kinds:
+    if 'gas_raw' in kinds:
+        ctx.cls('model:gas_raw_entry')
+        i_raw = kinds.index('gas_raw')
+        ctx.cls('raw_entry:' + ('alone' if len(kinds) == 1 else 'first' if i_raw == 0 else
+                                'last' if i_raw == len(kinds) - 1 else 'middle'))
+        base['raw_entry'] = True
+    elif 'gas' in kinds:
         ctx.cls('model:gas_preattached')
     elif any(m['kind'] == 'gas' for m in models):
         ctx.cls('model:gas_auto')
@@ -612,6 +707,16 @@ def run_case(spec, ctx):
     for a in spec['arrays']:
         n = len(a['T'])
         ctx.cls('array:' + a['kind'])
+        if n >= 2:
+            if len(set(a['T'])) == 1:
+                ctx.cls('T:array_all_equal', 'T:array_repeats')
+            else:
+                if len(set(a['T'])) < n:
+                    ctx.cls('T:array_repeats')
+                if all(a['T'][k] >= a['T'][k + 1] for k in range(n - 1)):
+                    ctx.cls('T:array_descending')
+                elif not all(a['T'][k] <= a['T'][k + 1] for k in range(n - 1)):
+                    ctx.cls('T:array_unsorted')
         if n in (1, 2, 50):
             ctx.cls('array:len%d' % n)
         if n == n_models and n >= 2:
@@ -635,8 +740,8 @@ def run_case(spec, ctx):
     if user is not None:
         lst = [_build_model(m) for m in user]
         extra['misc_models'] = lst
-    if spec['add_gas_P_adj'] is not None:
-        extra['add_gas_P_adj'] = spec['add_gas_P_adj']
+    if flag != 'default':
+        extra['add_gas_P_adj'] = flag_value(flag)
     before = list(lst) if lst is not None else None
     hist = {'history': 'constructed'}
     share = spec.get('share')
@@ -671,7 +776,7 @@ def run_case(spec, ctx):
                   before=[type(m).__name__ for m in before], after=[type(m).__name__ for m in lst])
     want_adj = 1 if any(m['kind'] == 'gas' for m in models) else 0
     ctx.check('M2', _count_adj(obj) == want_adj, m2, got=_count_adj(obj), want=want_adj,
-              add_gas_P_adj=spec['add_gas_P_adj'])
+              add_gas_P_adj=flag)
     ev = _Eval(ctx, spec, sp, models, base)
     if other is not None and other is not core.NOVALUE:
         # the second species shares the caller's list: it carries an adjustment iff *it* is a gas
@@ -690,7 +795,7 @@ def run_case(spec, ctx):
     ev.m1(obj, hist, spec['Ts'], spec['arrays'])
     ev.m3(obj, hist, spec['Ts'], spec['arrays'])
     # ---- history
-    disabled = spec['add_gas_P_adj'] is False and is_gas(phase)
+    disabled = not FLAG_TRUTHY[flag] and is_gas(phase)
     vias = []
     for k, op in enumerate(spec['history']):
         if op in ('from_dict', 'json') and op not in vias:
@@ -704,6 +809,8 @@ def run_case(spec, ctx):
         if not ctx.check('M2', type(new) is type(obj), dict(m2, step='class'), got=type(new).__name__):
             return
         obj = new
+        if flag != 'default':
+            ctx.cls('flag_route:%s:%s' % (flag, op))
         if disabled and hist['history'] == 'reloaded':
             # the user disabled the adjustment: a reload must not bring it back (was telemetry until the
             # flag was made persistent in /repo; now decided by the M2 count below, want_adj == 0)
